@@ -18,6 +18,8 @@ pub fn run(opts: &Opts) -> Option<(Stats, Vec<String>, String)> {
             Some((st, floors, SCHED_RULE.to_string()))
         }
         "C11" | "C12" | "C13" | "C14" | "C16" | "C17" | "C18" => crate::buildchecks::run(opts),
+        "C15" => Some(crate::multirun::run_c15(opts, cfg_b)),
+        "C20" => Some(crate::multirun::run_c20(opts, cfg_b)),
         _ => None,
     }
 }
